@@ -776,6 +776,14 @@ def _sync_plan(rnd, big):
     chunk = rnd.choice(CHUNKS)
     maxlen = rnd.choice([L, L, L, max(0, L - 2), L + 3, 0, max(0, L - 100) if big else L])
     mode = rnd.choice(['rand', 'rand', 'none', 'ones', 'twos'])
+    if big and rnd.random() < 0.03:
+        # chunk sizes around and above the module default (32 KiB): sizes the reader derives from ITS OWN chunk size (peek(), readline ...)
+        L = rnd.choice([33000, 66000, 70000, 100000])
+        unit = bytes(rnd.choice(b'ab\r\n-') for _ in range(97))
+        data = (unit * (L // 97 + 1))[:L]
+        chunk = rnd.choice([32767, 32768, 32769, 40000, 65536, 131072])
+        maxlen = rnd.choice([L, L, L - 2, L + 3])
+        mode = 'none'
     if mode == 'rand':
         shorts = [rnd.choice([0, 0, 1, 2, 3]) for _ in range(rnd.randint(0, 10))]
     elif mode == 'none':
@@ -793,12 +801,12 @@ def _sync_chooser(rnd, plan, wild, nest=True):
     left = [total * 3]      # ops that turn out inapplicable are skipped; bound the draws
 
     def base(cur, buffered):
-        k = rnd.choice(['read'] * 4 + ['peek'] * 2 + ['ru'] * 6 + ['pu'] * 2 + ['rl'] * 3 + ['rls', 'pipe', 'exhaust'])
+        k = rnd.choice(['read'] * 4 + ['peek'] * (2 if len(plan['data']) < 30000 else 12) + ['ru'] * 6 + ['pu'] * 2 + ['rl'] * 3 + ['rls', 'pipe', 'exhaust'])
         near = [max(0, buffered + e) for e in (-3, -2, -1, -1, 0, 1)] if buffered else None    # sizes that end near the buffer border
         if k == 'read':
             return ('read', rnd.choice(near if near and rnd.random() < 0.3 else sizes))
         if k == 'peek':
-            return ('peek', rnd.choice([-1, 0, 1, 2, 3, 9, 70]))
+            return ('peek', rnd.choice([-1, 0, 1, 2, 3, 9, 70] if len(plan['data']) < 30000 else [-1, -1, -1, 40000, 70]))
         if k in ('ru', 'pu'):
             d = _pick_delim(rnd, cur, plan['chunk'], buffered)
             if wild and rnd.random() < 0.08:
@@ -1103,6 +1111,12 @@ def _async_plan(rnd, big):
     data = bytes(rnd.choice(alph) for _ in range(L))
     chunk = rnd.choice(CHUNKS)
     mode = rnd.choice(['rand', 'rand', 'rand', 'ones', 'whole'] + (['large'] if big else []))
+    if big and rnd.random() < 0.03:
+        L = rnd.choice([33000, 66000, 70000, 100000])
+        unit = bytes(rnd.choice(b'ab\r\n-') for _ in range(97))
+        data = (unit * (L // 97 + 1))[:L]
+        chunk = rnd.choice([32767, 32768, 32769, 40000, 65536, 131072])
+        mode = rnd.choice(['whole', 'large'])
     parts, i = [], 0
     if mode == 'whole':
         parts = [data]
@@ -1140,7 +1154,7 @@ def _async_chooser(rnd, plan):
                 state['drain'] = True
                 return rnd.choice([('exhaust',), ('pipe',), ('read', None), ('readall',)])
             return ('pop',)
-        k = rnd.choice(['read'] * 4 + ['peek'] * 2 + ['ru'] * 6 + ['pu'] * 2 + ['readall', 'pipe', 'exhaust'] + (['iter'] if nest else []))
+        k = rnd.choice(['read'] * 4 + ['peek'] * (2 if plan['L'] < 30000 else 12) + ['ru'] * 6 + ['pu'] * 2 + ['readall', 'pipe', 'exhaust'] + (['iter'] if nest else []))
         near = [max(0, buffered + e) for e in (-3, -2, -1, -1, 0, 1)] if buffered else None
         if state['queue']:
             return state['queue'].pop(0)
@@ -1156,7 +1170,7 @@ def _async_chooser(rnd, plan):
         if k == 'read':
             return ('read', rnd.choice(near if near and rnd.random() < 0.3 else sizes))
         if k == 'peek':
-            return ('peek', rnd.choice([-1, 0, 1, 2, 3, 9, 70]))
+            return ('peek', rnd.choice([-1, 0, 1, 2, 3, 9, 70] if plan['L'] < 30000 else [-1, -1, -1, 40000, 70]))
         if k in ('ru', 'pu'):
             d = _pick_delim(rnd, cur, plan['chunk'], buffered)
             if not nest and rnd.random() < 0.04:
